@@ -116,6 +116,17 @@ def check_structure(mon, prev, snap, tx):
             mon.finding("succeeded step has an output that is not built",
                         f"{label(snap, src)} -> {label(snap, snk)} is {FSTATE_NAME[fstate[0]]} "
                         f"(transaction {tx.index}, {tx.task_name})")
+    # an attached BUILT output has a producer that is SUCCEEDED (FileState.BUILT: "an output of a
+    # step that has completed"; every path that takes a step out of SUCCEEDED outdates them)
+    for idep, (src, snk) in snap["dep"].items():
+        st = snap["step"].get(src)
+        frow = snap["file"].get(snk)
+        if st is None or frow is None or frow[0] != BUILT or nodes[snk][3]:
+            continue
+        if st["state"] != S:
+            mon.finding("BUILT output of a step that is not SUCCEEDED",
+                        f"{label(snap, snk)} is BUILT, {label(snap, src)} is {STATE_NAME[st['state']]} "
+                        f"(transaction {tx.index}, {tx.task_name})")
     # (6) step rows
     for i, st in snap["step"].items():
         if st["deferred"] and st["state"] != P:
@@ -472,3 +483,23 @@ async def check_phase_end(mon, build, handler):
         if all(stale_after_dropped_dynamic(mon, None, snap, i) for i in ids):
             mech = STALE_AFTER_MECH
         mon.finding(mech, f"eligible: {left[:5]}", {"eligible": left[:5]})
+
+
+async def check_lost_wakeup(mon, build):
+    """C10 (c): quiescent director, free job slot, parked job loop, yet an eligible step exists."""
+    from .commitmon import snapshot
+
+    handler = build.handler
+    if handler is None or not getattr(build, "in_phase", False):
+        return
+    if handler.scheduler.draining or len(handler.builder.running_tasks) >= handler.builder.njob:
+        return
+    db = handler.db
+    async with db:
+        snap = snapshot(db._held.con)
+    mon.count("quiescent_checks")
+    left = eligible_left(snap)
+    if left:
+        mon.finding("eligible step while the job loop is parked (lost wake-up)",
+                    f"eligible: {left[:3]} running={len(handler.builder.running_tasks)} "
+                    f"njob={handler.builder.njob}", {"eligible": left[:3]})
